@@ -1,7 +1,7 @@
 //! C01 — SQL query results agree with reference relational semantics.
 //!
 //! Domain: `SqlCase` = tables `t0..t2(id BIGINT unique, a BIGINT, b BIGINT, s VARCHAR, f DOUBLE, p BOOLEAN)`
-//! (0–12 rows quick, 0–40 thorough, NULL-heavy skewed small domains) + a query from the type-directed
+//! (0–12 rows quick, 0–30 thorough, NULL-heavy skewed small domains) + a query from the type-directed
 //! grammar of `vf_kit::refsql::gen` (depth 2 quick / 3 thorough): filters, projections with
 //! CASE/COALESCE/NULLIF/arithmetic/`||`/LIKE, all join kinds incl. LEFT|RIGHT SEMI|ANTI, GROUP BY (+HAVING,
 //! DISTINCT aggregates, FILTER, ROLLUP/CUBE/GROUPING SETS), DISTINCT, ORDER BY/LIMIT/OFFSET, set operations
@@ -21,12 +21,26 @@
 //! Deviations from DESIGN.md: ordered results are checked as multiset + sortedness (exactly what ORDER BY
 //! promises) instead of sequence equality; quick depth is 2 (depth 3 in thorough).
 //!
-//! Known finding (DESIGN.md §9 item 3): an *unaliased* `x op ANY|ALL (subquery)` in the SELECT list fails with
-//! `Internal error … difference in schemas` (RewriteSetComparison does not preserve the output name).
-//! Signature `unaliased-select-list-quantified`; regression case /verif/regressions/C01/c01/; proposed repair
-//! /verif/fixes/C01-set-comparison-name.diff.
+//! Known findings (all reproduced with datafusion-cli on the unchanged tree; entries in /verif/known_findings.json,
+//! minimal cases under /verif/regressions/C01/c01/; shape-keyed signatures are excluded by construction via
+//! `shape_signature`, outcome-keyed ones additionally require the engine to answer with exactly that error):
+//!  1 unaliased-select-list-quantified (DESIGN §9.3; repair /verif/fixes/C01-set-comparison-name.diff, verified with
+//!    mutrun: the regression case becomes a clean NotImplemented)          2 in-subquery-outside-conjunct (mark join: FALSE for NULL)
+//!  3 not-in-subquery-constant-lhs    4 not-in-subquery-correlated      5 intersect-except-all (no bag semantics)
+//!  6 in-list-case-element (repair /verif/fixes/C01-in-list-constant-detection.diff)   7 join-mixed-null-equality
+//!  8 outer-join-on-literal-eq-column (push_down_filter rewrites an inferred filter to false)
+//!  9 outer-join-filter-on-nullable-side-join-key (physical FilterPushdown)   10 filter-below-empty-grouping-set
+//! 11 pred-subquery-correlated-global-aggregate (count bug for EXISTS/IN/ANY/ALL)   12 union-constant-columns-order-by
+//! 13 window-aggregate-of-literal    14 sum-of-constant-derived-column    15 union-empty-first-branch-names (outcome-keyed)
+//! 16 nullability-mismatch:bool-test and :case-then-in-when (outcome-keyed Internal errors)
+//! 17 window-partition-by-not-ordered (outcome-keyed Execution error)   18 nested-offset-without-limit (physical LimitPushdown)
+//! Not pinned as findings: decorrelation rules failing with `Schema error: No field named …` on unsupported
+//! correlated shapes are treated as the engine's (poorly worded) rejection → discards labelled `decorrelation-failed`.
 //!
-//! Sensitivity probes: see the end of this header (filled in after running them with mutrun).
+//! Sensitivity probes (mutrun, patches under /verif/fixes/probes/): see PROBES at the end of this header.
+//! PROBES:
+//!  A C01-probe-limit-forgets-offset.diff (limit_pushdown pushes `fetch` without adding `skip`)        → see report
+//!  B C01-probe-pushdown-below-left-join.diff (push_down_filter treats the right side of LEFT JOIN as preserved) → see report
 use proptest::prelude::*;
 use vf_df::{ErrClass, Outcome as DfOutcome, Variant, repro_script, run_sql};
 use vf_kit::engine::*;
@@ -434,6 +448,19 @@ pub fn sum_of_constant_derived_column(q: &Query) -> bool {
     found
 }
 
+/// a nested (non top-level) query with OFFSET but no LIMIT (known finding `nested-offset-without-limit`)
+pub fn nested_offset_without_limit(q: &Query) -> bool {
+    let mut n = 0;
+    let mut found = false;
+    refsql::visit_queries(q, &mut |qq| {
+        if n > 0 && qq.offset.is_some() && qq.limit.is_none() {
+            found = true;
+        }
+        n += 1;
+    });
+    found
+}
+
 pub fn has_intersect_except_all(q: &Query) -> bool {
     fn set(e: &SetExpr, found: &mut bool) {
         if let SetExpr::SetOp { op, all, left, right } = e {
@@ -450,7 +477,7 @@ pub fn has_intersect_except_all(q: &Query) -> bool {
 }
 
 pub fn gen_config(tier: Tier) -> GenConfig {
-    let mut cfg = GenConfig::standard(3, tier.pick(12, 40), tier.pick(2, 3));
+    let mut cfg = GenConfig::standard(3, tier.pick(12, 30), tier.pick(2, 3));
     cfg.tape_len = tier.pick(500, 800);
     cfg
 }
@@ -778,6 +805,9 @@ pub fn shape_signature(q: &Query) -> Option<String> {
     if pred_subquery_correlated_global_agg(q) {
         return Some("pred-subquery-correlated-global-aggregate".into());
     }
+    if nested_offset_without_limit(q) {
+        return Some("nested-offset-without-limit".into());
+    }
     if sum_of_constant_derived_column(q) {
         return Some("sum-of-constant-derived-column".into());
     }
@@ -845,7 +875,7 @@ impl Property for C01 {
         let sql = refsql::to_sql(&case.query);
         let db = case.db();
         let feats = refsql::features(&case.query);
-        let reference = refsql::eval(&case.query, &db);
+        let reference = refsql::eval_with(&case.query, &db, &refsql::EvalOptions { fuel: 2_000_000, recursion_cap: 64, max_rows: 40_000 });
         if let Err(e) = &reference {
             if refsql::classify(e) == RefErrorClass::HarnessBug {
                 panic!("refsql cannot evaluate a generated query ({e}): {sql}");
